@@ -47,6 +47,7 @@ class World:
     name = "twodledger"
     prop_id = "C19"
     level = "fault_enumeration"
+    quick_enum_bases = 64        # quick tier: all single-fault placements of the first 64 sampled programs (thorough: of all)
     quick_runs = 8000
     thorough_budget_s = 600
     run_timeout = 60.0
